@@ -131,6 +131,12 @@ func (rd *realDecoder) getCompactArrayLength() (int, error) {
 		return 0, nil
 	}
 
+	// every element takes at least one byte
+	if n-1 > uint64(rd.remaining()) {
+		rd.off = len(rd.raw)
+		return 0, ErrInsufficientData
+	}
+
 	return int(n) - 1, nil
 }
 
@@ -241,6 +247,14 @@ func (rd *realDecoder) getCompactString() (string, error) {
 		return "", err
 	}
 
+	// a compact string cannot be null
+	if n == 0 {
+		return "", errInvalidStringLength
+	}
+	if n-1 > uint64(rd.remaining()) {
+		rd.off = len(rd.raw)
+		return "", ErrInsufficientData
+	}
 	length := int(n - 1)
 
 	tmpStr := string(rd.raw[rd.off : rd.off+length])
@@ -254,11 +268,14 @@ func (rd *realDecoder) getCompactNullableString() (*string, error) {
 		return nil, err
 	}
 
-	length := int(n - 1)
-
-	if length < 0 {
-		return nil, err
+	if n == 0 {
+		return nil, nil
 	}
+	if n-1 > uint64(rd.remaining()) {
+		rd.off = len(rd.raw)
+		return nil, ErrInsufficientData
+	}
+	length := int(n - 1)
 
 	tmpStr := string(rd.raw[rd.off : rd.off+length])
 	rd.off += length
@@ -275,6 +292,10 @@ func (rd *realDecoder) getCompactInt32Array() ([]int32, error) {
 		return nil, nil
 	}
 
+	if n-1 > uint64(rd.remaining()/4) {
+		rd.off = len(rd.raw)
+		return nil, ErrInsufficientData
+	}
 	arrayLength := int(n) - 1
 
 	ret := make([]int32, arrayLength)
